@@ -12,7 +12,7 @@ VARIABLES s, hist, w
 K == [interval |-> Interval, maxReorg |-> MaxReorg, trusted |-> Trusted,
       popFirst |-> PopFirst, keepDecode |-> KeepDecode]
 Contents == IF NL = 2 THEN {"e", "f1", "d1", "f2", "d2"} ELSE {"e", "f1", "d1"}
-Reqs == Requests(MaxDev, Contents, {0, 2, 3, -1})
+Reqs == Requests(MaxDev, Contents, {0, 2, 3, -1, -2})
 
 Hdr(i, fh) == [id |-> "A" \o ToString(i), p |-> IF i = 0 THEN "?" ELSE "A" \o ToString(i - 1),
                c |-> "b", lvl |-> 0, fh |-> fh]
